@@ -3,6 +3,7 @@ by C05 (round trip) and C12 (file layout).  DESIGN sections C05 / C12 / 2.7."""
 
 from __future__ import annotations
 
+import dataclasses
 import io
 import json
 import os
@@ -156,6 +157,33 @@ def typed_deserialize_mapper_consuming(parent, data):
     kind = data.pop("kind")
     assert isinstance(kind, str), kind
     return obj_deserialize_mapper_consuming(parent, data)
+
+
+@dataclasses.dataclass(frozen=True)
+class Part:
+    """a value object (hashable by value; its hash depends on the str hash seed of the process)"""
+
+    name: str
+
+
+def part_serialize_mapper(node, data):
+    data["pname"] = node.data.name
+    return data
+
+
+def part_deserialize_mapper(parent, data):
+    return Part(data["pname"])
+
+
+def build_parts(spec):
+    tree = Tree("parts")
+
+    def add_all(parent, items):
+        for item in items:
+            add_all(parent.add(Part(item[0])), item[1])
+
+    add_all(tree, spec)
+    return tree
 
 
 def str_mapper(parent, data):
